@@ -32,7 +32,7 @@ RULE = ("One scenario = a session configuration (server|client, autoclose, autop
         "close(code, incl. empty payload)|protocol-violating frame, drop (clean / with error), pausew/resumew, adv <ms>, "
         "tick (= ONE ready callback, or the clock jumps to the next timer). (a) random sequences of 3-14 events with 0-3 "
         "ticks in between; (b) every permutation of twelve 5-event sets x 4 configurations x {0,1,8} ticks after each event "
-        "(thorough: all 120 permutations, quick: 4 sampled); (c) the minimal sequence of each known finding. Every scenario is then "
+        "(thorough: all 120 permutations and also 2 ticks, quick: 8 sampled); (c) the minimal sequence of each known finding. Every scenario is then "
         "driven to quiescence, the connection is dropped, and driven to quiescence again. After every label the projection "
         "of the real objects (session flags, close code, exception kind, writer._closing, wire frames, queue, timers, ready "
         "count, clock, task outcomes) is compared with the Lean model's; the direct oracle judges the wire, the close() "
@@ -116,8 +116,25 @@ def cfg_tokens(cfg, fixed=0):
         str(cfg["close_timeout"]), str(cfg["limit"]), str(fixed)])
 
 
+_VARIANT = {}
+
+
+def writer_variant():
+    """Which writer does the tree under test have?  Probe on the real objects: server, write-paused transport,
+    close() parked in the CLOSE frame's drain — is WebSocketWriter._closing already set?  (1 = the repaired
+    writer of finding F17, modelled by `cfg.fixed`; 0 = the writer as found.)"""
+    if "v" not in _VARIANT:
+        cfg = {"side": "server", "autoclose": True, "autoping": True, "heartbeat": None, "recv_timeout": None,
+               "close_timeout": 1500, "limit": 1}
+        res = c13sim.run_scenario(cfg, [("call", 2, "send", 5), ("tick",), ("pausew",), ("call", 0, "close", 1000), ("tick",)])
+        last = res["trace"][-1]
+        parked = " dw=p " in last and " fr=T,C1000 " in last
+        _VARIANT["v"] = 1 if (parked and " wc=1 " in last) else 0
+    return _VARIANT["v"]
+
+
 def model_line(cfg, labels):
-    return "run " + cfg_tokens(cfg) + "".join(" " + lab_token(l) for l in labels)
+    return "run " + cfg_tokens(cfg, writer_variant()) + "".join(" " + lab_token(l) for l in labels)
 
 
 # ------------------------------------------------------------------------------- generators
@@ -240,25 +257,34 @@ def oracle(ctx, cfg, labels, trace, a_end, complete, case):
     if a_end is None or not complete:
         return
     A, B = P[a_end], P[-1]
+    running = {}   # task slot -> op of the call that is in progress (a call on a busy slot is ignored)
+    op_at = []
+    for i in range(len(P)):
+        if i >= 1:
+            lab = labels[i - 1]
+            if lab[0] == "call" and P[i - 1]["tasks"][lab[1]] != "p":
+                running[lab[1]] = lab[2]
+        op_at.append(dict(running))
     # -- receive() never blocks forever; close() returns
     for t, st in enumerate(B["tasks"]):
         if st == "p":
-            op = next(l[2] for l in reversed(labels) if l[0] == "call" and l[1] == t)
+            op = op_at[-1][t]
             ctx.violation(f"C13/{'receive' if op == 'recv' else op}-parked/after-connection-lost", case,
                           f"task {t} ({op}) still blocked at quiescence after the connection was lost: {trace[-1]}")
     if A["tc"] == "1":
         for t, st in enumerate(A["tasks"]):
             if st == "p" and A["pw"] == "0":
-                op = next(l[2] for l in reversed(labels) if l[0] == "call" and l[1] == t)
+                op = op_at[a_end][t]
                 if op == "recv":
                     ctx.violation("C13/receive-parked/transport-closed", case,
                                   f"receive() of task {t} blocked with nothing left to wake it: {trace[a_end]}")
+    # a close() call ended by CancelledError (at the `_close_wait` await when that future exists)
+    close_cancelled = any(
+        P[i]["tasks"][t] == "x:cancelled" and P[i - 1]["tasks"][t] == "p" and op_at[i - 1].get(t) == "close"
+        for i in range(1, len(P)) for t in range(3))
+    closing_msg = cfg["side"] == "server" and any("r:CLOSING" in p["tasks"] for p in P)
     # -- the transport is closed once the session is closed (all application calls have returned)
     if A["c"] == "1" and A["tc"] == "0" and all(st != "p" for st in A["tasks"]):
-        close_cancelled = any(
-            P[i]["tasks"][t] == "x:cancelled" and P[i - 1]["tasks"][t] == "p"
-            and next(l[2] for l in reversed(labels[:i]) if l[0] == "call" and l[1] == t) == "close"
-            for i in range(1, a_end + 1) for t in range(3))
         ctxname = ("close-cancelled-in-close-wait" if A["cw"] == "c" or (A["cw"] == "d" and close_cancelled)
                    else "close-cancelled" if close_cancelled else "other")
         ctx.violation(f"C13/transport-open-after-closed/{ctxname}", case,
@@ -275,17 +301,21 @@ def oracle(ctx, cfg, labels, trace, a_end, complete, case):
             and any(f.startswith("C") for f in A["frames"]):
         if A["cc"] != str(delivered[0]):
             over = any(p["c"] == "1" and p["cc"] == str(delivered[0]) for p in P[:a_end])
-            ctx.violation("C13/close-code/" + ("receive-overwrites-code-of-closed-session" if over else "clean-handshake-wrong-code"), case,
+            ctx.violation("C13/close-code/" + ("receive-overwrites-code-of-closed-session" if over
+                                               else "server-closing-message-sets-ok" if (closing_msg and A["cc"] == "1000")
+                                               else "clean-handshake-wrong-code"), case,
                           f"clean handshake, peer's code {delivered[0]}, reported {A['cc']}: {trace[a_end]}")
     if B["c"] == "1" and not delivered and B["cc"] != "1006":
-        if B["cw"] == "c" and B["cc"] in ("-", "1000"):
+        if B["cw"] != "-" and close_cancelled and B["cc"] in ("-", "1000"):
             kind = "close-cancelled-in-close-wait"
         elif any(p["c"] == "1" and p["cc"] == "1006" for p in P):
             ctx.violation("C13/close-code/receive-overwrites-code-of-closed-session", case,
                           f"session was closed with code 1006, a later receive() replaced it by {B['cc']}: {trace[-1]}")
             return
-        elif cfg["side"] == "server" and B["cc"] == "1000" and any("r:CLOSING" in p["tasks"] for p in P):
-            kind = "server-closing-message-sets-ok"
+        elif closing_msg and B["cc"] == "1000":
+            ctx.violation("C13/close-code/server-closing-message-sets-ok", case,
+                          f"server close() from another task: CLOSING message sets code 1000, no CLOSE from the peer was read: {trace[-1]}")
+            return
         elif cfg["side"] == "client" and B["cc"] == "1002" and any(l[0] == "peer" and l[1] == "bad" for l in labels):
             kind = "client-protocol-error-reports-sent-code"
         else:
@@ -335,9 +365,9 @@ def exhaustive_cases(rng, quick):
         for ev in EVENT_SETS:
             perms = sorted(set(itertools.permutations(ev)))
             if quick:
-                perms = rng.sample(perms, min(len(perms), 4))
+                perms = rng.sample(perms, min(len(perms), 8))
             for perm in perms:
-                for mode in (0, 1, 8):
+                for mode in ((0, 1, 8) if quick else (0, 1, 2, 8)):
                     labels = []
                     for e in perm:
                         labels.append(e)
@@ -391,12 +421,18 @@ F9_CFG = {"side": "server", "autoclose": True, "autoping": True, "heartbeat": No
 
 def check(ctx):
     rng = ctx.rng
+    ctx.extra["writer_variant"] = ("repaired (F17 fixed): model run with cfg.fixed = true — no_data_after_close_frame_fixed applies"
+                                   if writer_variant() else
+                                   "as found: model run with cfg.fixed = false — no_data_after_close_frame_partial + counterexample f17_data_after_close apply")
+    ctx.hit("writer-variant:" + str(writer_variant()))
     # 1. random label sequences
     cases = []
-    n = 2500 if ctx.quick else 40000
+    n = 6000 if ctx.quick else 150000
     for _ in range(n):
         cfg = rand_cfg(rng)
         labels = rand_labels(rng, cfg, rng.randint(3, 14))
+        if rng.random() < 0.15:
+            labels += [("call", rng.randrange(3), "recv"), ("tick",)] * rng.randint(1, 7)
         cases.append((cfg, labels))
     run_and_judge(ctx, cases, "random")
     # 2. all orderings of small event sets
@@ -405,7 +441,7 @@ def check(ctx):
     if not ctx.quick:
         ctx.exhaustive = True
         ctx.extra["exhaustive_orderings"] = (f"{len(EVENT_SETS)} five-event sets x {len(BASE_CFGS)} configurations: every permutation, "
-                                             "with 0, 1 and 8 ticks after each event, then driven to quiescence, connection dropped, quiescence")
+                                             "with 0, 1, 2 and 8 ticks after each event, then driven to quiescence, connection dropped, quiescence")
     # 3. F17 and F9 directed
     for cfg in BASE_CFGS[:2]:
         big = CLIENT_LIMIT - 20 if cfg["side"] == "client" else 5
@@ -424,10 +460,27 @@ def check(ctx):
         (cli, [("call", 1, "recv"), ("call", 0, "close", 1000), ("call", 2, "close", 1000), ("tick",), ("tick",), ("peer", "close", 1001)]),
     ]
     run_and_judge(ctx, directed, "directed-findings")
+    # receive() on a closed session, repeatedly (server: THRESHOLD_CONNLOST_ACCESS boundary)
+    post = []
+    for cfg in BASE_CFGS:
+        for opener in ([("call", 0, "close", 1000), ("tick",), ("peer", "close", 1000), ("tick",), ("tick",)],
+                       [("call", 0, "recv"), ("tick",), ("peer", "close", 4000), ("tick",), ("tick",), ("tick",)],
+                       [("drop", 1), ("tick",), ("call", 0, "recv"), ("tick",), ("tick",)]):
+            post.append((cfg, opener + [("call", 1, "recv"), ("tick",)] * 7))
+    run_and_judge(ctx, post, "receive-after-closed")
     oracle_f9(ctx, F9_CFG, 40000, 2)
     oracle_f9(ctx, dict(F9_CFG, side="client", limit=CLIENT_LIMIT), 40000, 2)
     ctx.case(("f9",), nontrivial=True)
     oracle_f9(ctx, F9_CFG, 30000, 2)
+    # generator blind spots: every mechanism named in the property's anchors must have been exercised
+    need = ["state:parked-in-drain", "state:close-wait-pending", "state:ping-task-parked", "task:x:timeout", "task:x:cancelled",
+            "task:x:reset", "task:r:CLOSED", "task:r:CLOSING", "task:r:ERROR", "task:c:0", "task:c:1", "exc:pongtimeout", "exc:timeout",
+            "exc:eof", "exc:wserr", "code:1006", "code:1000", "code:4000", "side:server", "side:client", "label:drop", "label:cancel",
+            "label:pausew", "label:adv"]
+    missing = [k for k in need if not ctx.hits.get(k)]
+    if missing:
+        from .common.guard import MachineryError
+        raise MachineryError("C13 generators never reached: " + ", ".join(missing))
 
 
 def parse_token(tok):
